@@ -323,7 +323,7 @@ pub(crate) mod truncate {
         };
     }
     fp61_mul_wide!(q08_fp61_mul_ref_b32, 32);
-    fp61_mul_wide!(t08_fp61_mul_ref_b48, 48);
+    fp61_mul_wide!(x08_fp61_mul_ref_b48, 48);
     fp61_mul_wide!(t08_fp61_mul_ref_full, 61);
 
     harness! {
